@@ -57,7 +57,8 @@ def bind_args(fn, call):
     return env
 
 
-def expand_helpers(idx, module, node, depth=2, cls=None):
+def expand_helpers(idx, module, node, depth=2, cls=None, only=None):
+    """only: optional predicate on the resolved callee (FuncInfo) restricting which helpers are expanded"""
     if depth <= 0:
         return node
 
@@ -66,7 +67,7 @@ def expand_helpers(idx, module, node, depth=2, cls=None):
             self.generic_visit(n)
             callee = idx.resolve_call(module, n, cls)
             fn = getattr(callee, "node", None)
-            if not isinstance(fn, ast.FunctionDef) or getattr(callee, "cls", None) is not None:
+            if not isinstance(fn, ast.FunctionDef) or getattr(callee, "cls", None) is not None or (only is not None and not only(callee)):
                 return n
             sb = _simple_body(fn)
             env = bind_args(fn, n) if sb else None
@@ -76,7 +77,7 @@ def expand_helpers(idx, module, node, depth=2, cls=None):
             for name, e in assigns:
                 env[name] = _subst(e, env)
             res = _subst(ret, env)
-            return expand_helpers(idx, callee.module, res, depth - 1)
+            return expand_helpers(idx, callee.module, res, depth - 1, only=only)
     return T().visit(copy.deepcopy(node))
 
 
@@ -142,13 +143,25 @@ def normalise_statements(idx, module, stmts, cls=None, depth=3):
         out = []
         for st in stmts:
             # (1) literal loops
-            if isinstance(st, ast.For) and not st.orelse and isinstance(st.target, ast.Name) and isinstance(st.iter, (ast.Tuple, ast.List)) \
-                    and st.iter.elts and all(isinstance(e, ast.Constant) for e in st.iter.elts) \
+            if isinstance(st, ast.For) and not st.orelse and isinstance(st.iter, (ast.Tuple, ast.List)) and st.iter.elts and len(st.iter.elts) <= 8 \
                     and not any(isinstance(x, (ast.Break, ast.Continue)) for b in st.body for x in ast.walk(b)):
-                for e in st.iter.elts:
-                    out.extend(norm(_rename_locals(st.body, {st.target.id: e}, "u%d" % counter[0]) if False else
-                                    [_subst_stmt(b, {st.target.id: e}) for b in st.body], depth))
-                continue
+                # the loop variable(s) must not be assigned in the body, and a tuple target needs literal tuples of the same arity
+                tnames = [st.target.id] if isinstance(st.target, ast.Name) else ([e.id for e in st.target.elts] if isinstance(st.target, ast.Tuple) and all(isinstance(e, ast.Name) for e in st.target.elts) else None)
+                envs = []
+                if tnames is not None and not any(isinstance(x, ast.Name) and x.id in tnames and isinstance(x.ctx, ast.Store) for b in st.body for x in ast.walk(b)):
+                    for e in st.iter.elts:
+                        if isinstance(st.target, ast.Name):
+                            envs.append({st.target.id: e})
+                        elif isinstance(e, (ast.Tuple, ast.List)) and len(e.elts) == len(tnames):
+                            envs.append(dict(zip(tnames, e.elts)))
+                        else:
+                            envs = None
+                            break
+                    # element expressions must be side-effect free names / constants / tuples of those
+                    if envs is not None and all(isinstance(x, (ast.Name, ast.Constant, ast.Tuple, ast.List, ast.Load, ast.UnaryOp, ast.USub)) for env_ in envs for v_ in env_.values() for x in ast.walk(v_)):
+                        for env_ in envs:
+                            out.extend(norm([_subst_stmt(b, env_) for b in st.body], depth))
+                        continue
             # (2) boolean helper in an if test
             if isinstance(st, ast.If) and isinstance(st.test, ast.Call) and depth > 0:
                 callee = idx.resolve_call(module, st.test, cls)
